@@ -604,9 +604,19 @@ def addRpcSchema (isParams : Bool) (d : BDir) (anc : List Up) (c : Cat) : R Cat 
       else
         if x.result then fail d .notUnique else pure (c.updInter i fun x => { x with result := true })
 
-def addTags (d : BDir) (c : Cat) : R Cat := do
-  let _ ← tagsFromDirective c d
-  pure c
+/-- `d` is not the first Tags child of its parent (the test of `addTags`; it reads the directive and the children of its
+parent only, never the catalog) -/
+def secondTags (d : BDir) : List Up → Bool
+  | p :: _ => (tagsChild p.kids).map (·.id) != some d.id
+  | [] => false
+
+/-- `addTags`: one context has one Tags directive (F72: only the first one is ever read by `tagsFor`; a second one was
+validated and then ignored) -/
+def addTags (d : BDir) (anc : List Up) (c : Cat) : R Cat :=
+  if secondTags d anc then fail d .notUnique
+  else do
+    let _ ← tagsFromDirective c d
+    pure c
 
 /-- `addDirective`: the ban check, then the function registered for the directive's type (none for
 Path, ENUM, TAG, MACRO, PASTE, INCLUDE) -/
@@ -632,7 +642,7 @@ def addDirective (banned : List Kind) (d : BDir) (kids : List BDir) (anc : List 
   | .Method => addJsonRpcMethod d kids anc c
   | .Params => addRpcSchema true d anc c
   | .Result => addRpcSchema false d anc c
-  | .Tags => addTags d c
+  | .Tags => addTags d anc c
   | _ => .ok c
 
 mutual
